@@ -169,23 +169,33 @@ def runtime_namespace(extra=None):
                 st.extend(graph[x].jump_targets)
         return b in seen
 
-    def block_name(kind, idx):
-        return str(kind) + '_block_' + str(idx)
-
-    def region_name(kind, idx):
-        return str(kind) + '_region_' + str(idx)
-
-    def var_name(kind, idx):
-        return '__scfg_' + str(kind) + '_var_' + str(idx) + '__'
-
+    # the shapes of generated names follow the current source of NameGenerator (fin/name_lemmas.shape_of): the property
+    # (C18) is about freshness, not about the literal pieces of a name
+    from fin.name_lemmas import shape_of as _shape_of
     import re as _re
 
+    def _fmt(meth, kind, idx):
+        return ''.join(p[1] if p[0] == 'lit' else str(kind) if p[0] == 'kind' else str(idx) for p in _shape_of(meth))
+
+    def block_name(kind, idx):
+        return _fmt('new_block_name', kind, idx)
+
+    def region_name(kind, idx):
+        return _fmt('new_region_name', kind, idx)
+
+    def var_name(kind, idx):
+        return _fmt('new_var_name', kind, idx)
+
+    def _block_rx():
+        return '^' + ''.join(_re.escape(p[1]) if p[0] == 'lit' else '(.*)' if p[0] == 'kind' else '([0-9]+)'
+                             for p in _shape_of('new_block_name')) + '$'
+
     def gen_index(n):
-        m = _re.match(r'^.*_block_([0-9]+)$', str(n))
-        return int(m.group(1)) if m and str(int(m.group(1))) == m.group(1) else -1
+        m = _re.match(_block_rx(), str(n), _re.S)
+        return int(m.group(2)) if m and str(int(m.group(2))) == m.group(2) else -1
 
     def is_generated(n, kind):
-        m = _re.match(r'^(.*)_block_([0-9]+)$', str(n))
+        m = _re.match(_block_rx(), str(n), _re.S)
         return bool(m) and m.group(1) == kind and str(int(m.group(2))) == m.group(2)
 
     def dominates(entries, preds, a, n):
